@@ -87,3 +87,75 @@ def o12_7_confirm(v, out):
     size is queried); the log is reopened for appending and one record is added; all four records must be read back."""
     if out.get('_rc') != 0: return (False, 'native run failed: %s' % out.get('_stderr', '')[-300:])
     return (out.get('after_partial_read') != '4' or out.get('after_size_query') != '4', 'records read back after reopen-for-append: %s (after a partial read), %s (after a size query); expected 4 and 4' % (out.get('after_partial_read'), out.get('after_size_query')))
+
+
+def o12_11_memfs_read(mir, tier):
+    """`<LockableInMemoryFile as std::io::Read>`: `read` - and `read_exact`, when the crate overrides the std default - at a free cursor
+    c <= L of a file of free length L into a buffer of free length n.  Reference = the std::io::Read contract the log reader relies on:
+    read returns Ok(min(n, L - c)) and advances the cursor by that; read_exact returns Ok and advances by n when n <= L - c, and
+    fails with ErrorKind::UnexpectedEof otherwise (LogReader::read_record turns exactly that kind into end-of-file: a log cut inside a
+    block trailer must read as a clean end, not as an error)."""
+    fns = {n: [f for f in mir.fns.values() if f.name == n and 'fs_mem' in f.path and f.self_ty == 'LockableInMemoryFile' and (f.trait or '').endswith('Read')] for n in ('read', 'read_exact')}
+    if len(fns['read']) != 1: raise Inconclusive('fs_mem read not found uniquely (%d)' % len(fns['read']))
+    res = Result('O12.11 in-memory file: std::io::Read contract', [f.path for fl in fns.values() for f in fl] or ['-'],
+                 'file length L < 2^40, cursor 0..=L, buffer length n < 2^30, all free; byte contents abstract')
+    t0 = time.time()
+    ff = mir.struct_fields('InMemoryFile')
+    for name in ('read', 'read_exact'):
+        if not fns[name]:
+            res.cases['%s: not overridden by the crate (std default: a loop around read that ends in UnexpectedEof)' % name] = 1; continue
+        fn = fns[name][0]
+        S = lib.std_summaries(); P = S['$patterns']
+        L, c, n = BitVec('file_length', 64), BitVec('cursor', 64), BitVec('buffer_length', 64)
+        pre = [ULT(L, bv(1 << 40)), ULE(c, L), ULT(n, bv(1 << 30))]
+        P[r'parking_lot::lock_api::RwLock::(?:read|write)'] = lib.ident
+        P[r'<parking_lot::lock_api::RwLock(?:Read|Write)Guard<.*> as Deref(?:Mut)?>::deref(?:_mut)?'] = lib.ptr_deref
+        P[r'<Arc<parking_lot::lock_api::RwLock<.*>> as Deref>::deref'] = lib.ptr_deref
+        ln = lambda se, env, pc, v: lib.one(env, (se.deref(env, v) if isinstance(v, Ref) else v)['len'])
+        P[r'Vec::len'] = ln; P[r'core::slice::<impl \[.*\]>::len'] = ln
+        def copy_from(se, env, pc, dst, src):
+            d = se.deref(env, dst) if isinstance(dst, Ref) else dst; s_ = se.deref(env, src) if isinstance(src, Ref) else src
+            if se.check(d['len'] != s_['len']): se.panics.append((list(pc) + [d['len'] != s_['len']], 'copy_from_slice: source and destination lengths differ', 'summary'))
+            st = dict(env['$state']); st['copied'] = st['copied'] + [s_['len']]
+            return [(d['len'] == s_['len'], (), st)]
+        P[r'core::slice::<impl \[.*\]>::copy_from_slice'] = copy_from
+        ex = Exec(mir, S, loop_bound=4)
+        avail = L - c
+        def k(ret, env, pc, name=name, ex=ex):
+            inner = ex.deref(env, Ref('$inner'))
+            cur = inner[ff.index('cursor')]
+            ok = isinstance(ret, Enum) and ret.tag == 'Ok'
+            if name == 'read':
+                want = If(ULT(avail, n), avail, n)
+                posts = [('read fails on the in-memory file', BoolVal(ok)),
+                         ('read does not return min(buffer length, bytes left) / does not advance the cursor by that', And(ret.fields[0] == want, cur == c + want) if ok else BoolVal(False))]
+            else:
+                kind = None
+                if not ok:
+                    e = ret.fields[0]; kk = e.get('kind') if isinstance(e, dict) else None
+                    kind = kk.tag if isinstance(kk, Enum) else str(kk)
+                posts = [('read_exact succeeds although fewer bytes than the buffer holds are left (or fails although enough are left)', BoolVal(ok) == ULE(n, avail)),
+                         ('read_exact past the end of the file does not fail with ErrorKind::UnexpectedEof (the log reader takes only that kind for the end of a log: a log cut inside a block trailer then fails to open)',
+                          BoolVal(True) if ok else BoolVal(kind is not None and 'UnexpectedEof' in kind)),
+                         ('a successful read_exact does not advance the cursor by the buffer length', (cur == c + n) if ok else BoolVal(True))]
+            res.cases['%s -> %s' % (name, 'Ok' if ok else 'Err')] = res.cases.get('%s -> %s' % (name, 'Ok' if ok else 'Err'), 0) + 1
+            for label, post, m in ex.check_posts(posts, pc):
+                res.violations.append({'label': label, 'model': {'length': mval(m, L), 'cursor': mval(m, c), 'buffer': mval(m, n)}, 'replay': ['log_scenario', 'A32757', 'A5', 'K32766']})
+        inner = mir.mk_struct('InMemoryFile', contents={'len': L, 'kind': 'contents', 'off': bv(0)}, cursor=c)
+        env = {'$state': {'copied': []}, '$inner': inner, '$file': {0: Ref('$inner'), '__ty': 'LockableInMemoryFile'}, '$buf': {'len': n, 'kind': 'buffer', 'off': bv(0)}}
+        ex.top(fn, [Ref('$file'), Ref('$buf')], env, pre, k)
+        res.absorb(ex)
+        for pcx, msg, where in ex.panics:
+            ex.solver.push(); ex.solver.add(*pre); ex.solver.add(*[cc for cc in pcx if not isinstance(cc, bool)]); feas = str(ex.solver.check()) == 'sat'; ex.solver.pop()
+            if feas and 'overflow' not in msg:
+                res.panic_paths += 1; res.violations.append({'label': 'panic path: ' + msg[:80], 'replay': ['log_scenario', 'A32757', 'A5', 'K32766']})
+    res.wall_s = time.time() - t0
+    if res.violations: res.status = 'violation'
+    return res
+
+
+def o12_11_confirm(v, out):
+    """Native: a log whose first record ends 4 bytes before the block boundary, a second record behind it, the file cut inside the
+    trailer: the reader must return nothing more and end cleanly (the first record is cut too: its block is incomplete)."""
+    if out.get('_rc') != 0: return (True, 'native log reader panicked / failed: %s' % out.get('_stderr', '')[-300:])
+    return (out.get('end') != 'eof' or out.get('returned') != out.get('expected'), 'native: log cut inside a block trailer: returned %s (expected %s), then %s (expected eof)' % (out.get('returned'), out.get('expected'), out.get('end')))
